@@ -200,6 +200,30 @@ class Check:
                                         "coqc_output": "non-standard axioms: %s" % bad})
                     return False
         self.discharged.extend(thms)
+        if self.tier == "thorough" and os.environ.get("VERIF_NO_COQCHK") != "1":
+            if not self.coqchk(prop_file):
+                return False
+        return True
+
+    def coqchk(self, prop_file: str, timeout=2400) -> bool:
+        """Independent re-check of the compiled property file and everything it depends on (thorough tier)."""
+        mod = "AVchk." + prop_file[:-2]
+        cmd = ["coqchk", "-o", "-silent", "-Q", COQ_THEORIES, "AV", "-Q", ".", "AVchk", mod]
+        self.checker_cmds.append("coqchk -o -silent -Q coq/theories AV -Q build/%s AVchk %s" % (self.pid, mod))
+        rc, out, dt = run(["timeout", str(timeout), *cmd], cwd=self.build, timeout=timeout + 30)
+        axioms = re.findall(r"^\s{4}(Coq\.[A-Za-z0-9_.']+|[A-Za-z][A-Za-z0-9_.']+)\s*$", out, re.M)
+        clean = all(f"{k}: <none>" in out for k in ("relying on type-in-type", "relying on unsafe (co)fixpoints",
+                                                     "whose positivity is assumed"))
+        self.cov["coqchk"] = {"module": mod, "seconds": round(dt, 1), "axioms": axioms, "no_unsafe_flags": clean,
+                              "exit": rc}
+        allowed = {"Coq." + a.replace("ClassicalDedekindReals", "Reals.ClassicalDedekindReals")
+                   .replace("FunctionalExtensionality", "Logic.FunctionalExtensionality")
+                   .replace("Classical_Prop", "Logic.Classical_Prop") for a in STD_AXIOMS}
+        foreign = [a for a in axioms if not a.startswith("Coq.")]
+        if rc != 0 or not clean or foreign:
+            self.broken.append({"file": prop_file, "item": "coqchk",
+                                "coqc_output": ("foreign axioms: %s\n" % foreign if foreign else "") + out[-1200:]})
+            return False
         return True
 
     # ---------------- violations ----------------
